@@ -149,7 +149,8 @@ func init() { extraDumps["renames"] = func(p *Prog) { dumpRenames() } }
 // devRename is a maintenance helper used to produce behaviour-preserving
 // rename patches for the checker's self-test (neutral/*.patch): it rewrites, in
 // place, the files of the tree at GSVERIF_REPO. Specs:
-//   var:<pkgrel>::<[Recv.]Func>:<old>=<new>   parameters / receivers / locals of one function
+//
+//	var:<pkgrel>::<[Recv.]Func>:<old>=<new>   parameters / receivers / locals of one function
 func devRename(specs []string) int {
 	p, _, err := loadOnce(RepoDir(), "amd64", nil)
 	if err != nil {
